@@ -30,5 +30,5 @@ For each change i in (1, 2) write into {out}/ :
   patch{{i}}.diff   - `git diff` of the change relative to the worktree's HEAD (apply-able with `git apply` from the repository root)
   demo{{i}}.py      - a small standalone program that exits 0 (prints PASS) on the unmodified library and exits non-zero (assertion failure) with the change applied; it must demonstrate a violation of THE PROPERTY as stated, not of some other behaviour
   meta{{i}}.json    - {{"property": "{pid}", "summary": "...what was changed...", "needs": "...what is needed for it to manifest...", "tests_run": "...which tests you ran with the change and the result..."}}
-Procedure: read the relevant source; design change 1; apply it in the worktree; check (b),(c); write demo1.py and confirm it FAILS with the change; save patch1.diff (git diff > ...); then `git checkout -- .` to restore and confirm demo1.py PASSES on the clean tree; repeat for change 2. Leave the worktree clean (git checkout -- .) at the end.
+Procedure: read the relevant source; design change 1; apply it in the worktree; check (b),(c); write demo1.py and confirm it FAILS with the change; save patch1.diff (git diff > ...); then `git checkout -- .` to restore and confirm demo1.py PASSES on the clean tree; repeat for change 2. Leave the worktree clean (git checkout -- .) at the end. NEVER use `git stash` (the stash is shared between worktrees of other people working in parallel); use `git diff > file` and `git checkout -- .` instead.
 Finish with a brief report: for each change, one paragraph on what it does and the exact commands/results you observed. If you cannot find a change meeting (c) after honest effort, say so rather than handing in one that fails tests.""")
